@@ -79,8 +79,12 @@ def _emit_fn(gen, root, fn, canary_false=False):
             body = X.r22_iter_position(body, fired)
         if 'R24' in rules_:
             body = X.r24_explicit_else(body, fired)
+        if 'R32' in rules_:
+            body = X.r32_unwrap_or_else(body, fired)
         if gtok and gtok.get('callees'):
             body = X.r23_ghost_token_calls(body, fired, gtok['callees'], gtok['arg'])
+        if gtok and gtok.get('path_callees'):
+            body = X.r23_ghost_token_path_calls(body, fired, gtok['path_callees'], gtok['arg'])
         for (a, b) in fn.body_subst:
             if body.count(a) != 1:
                 raise X.ExtractError('ANCHOR-LOST body_subst in %s::%s: %r (%d)' % (fn.file, fn.name, a, body.count(a)))
@@ -264,12 +268,28 @@ def _emit_lifted(gen, root, lf, canary_false=False):
     line = d['body_line'] + body.count('\n', 0, ob)
     fired = ['R17 closure %d of %s lifted into a function' % (lf.nth, lf.name)]
     ctext = X.rewrite_body(ctext, fired)
-    # the continuation call must be the closure's final expression
-    cm = re.search(r'\b%s\(([^;]*?)\)\s*\}\s*$' % re.escape(lf.cont), ctext, re.S)
-    if not cm:
-        raise X.ExtractError('ANCHOR-LOST lifted closure %d of %s: final expression is not a call of %s' % (lf.nth, lf.name, lf.cont))
-    ctext = ctext[:cm.start()] + X._pad('Ok((%s))' % cm.group(1), ctext[cm.start():cm.end() - 1]) + '}'
-    fired.append('R17 continuation %s(args) -> Ok((args))' % lf.cont)
+    # opt-in (set after construction, as for Fn): rules, logged abstractions and the R23 ghost token, applied to the closure's text
+    if 'R31' in getattr(lf, 'rules', ()):
+        ctext = X.r31_result_inspect(ctext, fired)
+    for (rx, rep, why) in getattr(lf, 'body_resub', ()):
+        n = len(re.findall(rx, ctext, flags=re.S))
+        if n != 1:
+            raise X.ExtractError('ANCHOR-LOST body_resub in lifted closure %d of %s: /%s/ matches %d times' % (lf.nth, lf.name, rx, n))
+        ctext = re.sub(rx, lambda mm: X._pad(mm.expand(rep), mm.group(0)), ctext, count=1, flags=re.S)
+        fired.append('ABSTRACT /%s/ -> %s (%s)' % (rx[:60], rep[:60], why))
+    ltok = getattr(lf, 'ghost_token', None)
+    if ltok and ltok.get('callees'):
+        ctext = X.r23_ghost_token_calls(ctext, fired, ltok['callees'], ltok['arg'])
+    if getattr(lf, 'cont_param', None):
+        # R17': the continuation's result is a parameter of the lifted function (the closure goes on after the call)
+        ctext = X.r17_cont_as_param(ctext, fired, lf.cont, lf.cont_param)
+    else:
+        # the continuation call must be the closure's final expression
+        cm = re.search(r'\b%s\(([^;]*?)\)\s*\}\s*$' % re.escape(lf.cont), ctext, re.S)
+        if not cm:
+            raise X.ExtractError('ANCHOR-LOST lifted closure %d of %s: final expression is not a call of %s' % (lf.nth, lf.name, lf.cont))
+        ctext = ctext[:cm.start()] + X._pad('Ok((%s))' % cm.group(1), ctext[cm.start():cm.end() - 1]) + '}'
+        fired.append('R17 continuation %s(args) -> Ok((args))' % lf.cont)
     ctext = X.apply_splices(ctext, lf.splices, fired, lf.key)
     key = '%s::%s::%s%s' % (lf.file, lf.scope or '', lf.key, '#canary' if canary_false else '')
     sig = lf.sig
